@@ -268,7 +268,10 @@ func Run(w *core.WorkerCtx, k int, prop string) *core.CaseResult {
 	}
 	defer l.Close()
 	var trace []string
-	note := func(f string, a ...interface{}) { trace = append(trace, fmt.Sprintf(f, a...)) }
+	t00 := time.Now()
+	note := func(f string, a ...interface{}) {
+		trace = append(trace, fmt.Sprintf("[%.1fs] ", time.Since(t00).Seconds())+fmt.Sprintf(f, a...))
+	}
 	watchdog := time.Now().Add(240 * time.Second)
 	// waitConverged: bounded in COORDINATION CYCLES (counted at shard 0's API); the wall-clock watchdog only
 	// makes the case inconclusive.
@@ -345,8 +348,14 @@ func Run(w *core.WorkerCtx, k int, prop string) *core.CaseResult {
 		if len(res.Viol) > 0 {
 			res.Witness = map[string]interface{}{"spec": spec, "workload": workload, "fault": fault, "trace": trace, "logs": l.Diagnostics()}
 		}
+		if res.Inconcl != "" && os.Getenv("VERIF_E7_DEBUG") != "" {
+			fmt.Fprintf(os.Stderr, "E7 inconclusive: %s\ntrace: %q\n", res.Inconcl, trace)
+			for n, s := range l.Diagnostics() {
+				fmt.Fprintf(os.Stderr, "---- %s\n%s\n", n, s)
+			}
+		}
 		if k == 0 {
-			res.Sample = map[string]interface{}{"workload": workload, "fault": fault, "trace": trace}
+			res.Sample =map[string]interface{}{"workload": workload, "fault": fault, "trace": trace}
 		}
 		return res
 	}
